@@ -1,7 +1,7 @@
 CONSTANT N = 8
 CONSTANT LateGuards = FALSE
 CONSTANT Deviation = "none"
-CONSTANT ExitKinds = {"return", "panic"}
+CONSTANT ExitKinds = {"return"}
 SPECIFICATION TSpec
 INVARIANT Safety
 POSTCONDITION Accepted
